@@ -77,7 +77,7 @@ def oracle(line, evs, meta):
 def run(chk):
     chk.prove(["Props/Properties_C20.v"])
     gather_tie(chk)
-    n = 300 if chk.tier == "quick" else 20000
+    n = 1500 if chk.tier == "quick" else 60000
     cases = [sc.gen_gather(chk.rng, i) for i in range(n)]
     sc.run_sim(chk, cases, oracle, "sim-C20")
     return chk.finish(**FINISH)
